@@ -64,6 +64,7 @@ static inline void spsc_fifo_push(spsc_fifo_t* f, spsc_node_t* new_node) {
   spsc_node_t* const prev_tail =
       atomic_load_explicit(&f->tail, memory_order_acquire);
   atomic_store_explicit(&f->tail, new_node, memory_order_release);
+  FIBER_VERIF_POINT(FV_SPSC_MID, f, new_node);
   atomic_store_explicit(&prev_tail->next, new_node, memory_order_release);
 }
 
